@@ -81,6 +81,13 @@ fn c06_scn(name: &str, full: bool, preconfigured: bool) -> ChatScn {
         if v.life[2] == Life::Live {
             acts.push(Act::Eof(2)); // a second session ending
         }
+        // the operator kills the victim twice before the victim's task has acted on the first
+        // notice: the second KILL finds a user that is already being wound up
+        if v.life[0] == Life::Live && v.life[1] == Life::Live && v.registered(0) {
+            if let Some(vn) = v.nick(0) {
+                acts.push(Act::Raw(1, format!("KILL {} :once\r\nKILL {} :twice\r\n", vn, vn).into_bytes()));
+            }
+        }
         acts
     }));
     s.focus = Focus { cats: ALL_CATS.to_vec(), relays: true, relay_verbs: None, actor: false, actor_codes: None, closes: true };
@@ -333,6 +340,19 @@ fn c11_plan_parts(quick: bool) -> Vec<Part> {
             let label = format!("{}-{}", ml, dl);
             parts.push(Part::Bfs(Box::new(c11_scn(&label, *m, *d, !quick)), lim(if quick { 5 } else { 5 }, 2_000_000, if quick { 8.0 } else { 300.0 })));
         }
+    }
+    // an operator name that is configured twice in front of the entry under test: every entry
+    // is still looked up by its own name, password and mask
+    {
+        let mut dup = c11_scn("nomask-dup-oper-names", None, (false, false, false, false, false), false);
+        dup.cfg.opers.insert(0, SpecOper { name: "admin".into(), password: "pwA".into(), mask: Some("*!*@10.*".into()) });
+        dup.cfg.opers.insert(1, SpecOper { name: "admin".into(), password: "pwB".into(), mask: None });
+        for slot in 0..2 {
+            dup.alphabet_for.retain(|(_, t)| !t.starts_with("STATS") && !t.starts_with("SQUIT") && !t.starts_with("USER") && !t.starts_with("PASS"));
+            dup.alphabet_for.push((slot, "OPER op pwB"));
+            dup.alphabet_for.push((slot, "OPER admin pwB"));
+        }
+        parts.push(Part::Bfs(Box::new(dup), lim(if quick { 4 } else { 5 }, 2_000_000, if quick { 8.0 } else { 300.0 })));
     }
     parts.push(Part::Bfs(Box::new(c11_ghost(!quick)), lim(if quick { 6 } else { 7 }, 2_000_000, if quick { 20.0 } else { 600.0 })));
     parts.push(Part::Bfs(Box::new(c11_case_scn()), lim(if quick { 4 } else { 5 }, 2_000_000, if quick { 20.0 } else { 300.0 })));
